@@ -89,6 +89,8 @@ class GB58:
             return _M(self._split)
         if name == 'partition':
             return _M(self._partition)
+        if name in ('index', 'find'):
+            return _M(lambda e, sub, *a: self._index(e, name, sub, *a))
         if name == 'encode':
             return _M(lambda e, *a: GB58(self.row, self.payload, self.ep, True))
         if name == 'decode':
@@ -106,6 +108,17 @@ class GB58:
 
     def __pyvc_truth__(self, eng):
         return True
+
+    def _index(self, eng, how, sub, *a):
+        """position of the separator '%': the base58 alphabet has no '%' and every string of a kind has the kind's encoded length (C09),
+        so the first '%' of  <address>%<entrypoint>  stands at that length; entrypoint names contain no '%' (split('%') model above)"""
+        if sub != '%' or a:
+            raise Unsupported(f'str.{how}({sub!r}) on a ghost base58 string')
+        if self.ep is None:
+            if how == 'find':
+                return -1
+            raise RaiseEx(ValueError('substring not found'))
+        return self.row[1]
 
     def _partition(self, eng, sep, *a):
         if sep != '%':
@@ -142,6 +155,12 @@ class GB58:
     def __pyvc_getitem__(self, eng, s):
         if isinstance(s, slice) and s.start in (None, 0) and s.step is None and isinstance(s.stop, int) and 0 <= s.stop <= len(self.hp):
             return self.hp[:s.stop]
+        if isinstance(s, slice) and s.step is None and not self.as_bytes:
+            n = self.row[1]                      # C09: the encoded length of the kind; the separator (if any) stands at index n
+            if (s.start is None or (isinstance(s.start, int) and s.start == 0)) and isinstance(s.stop, int) and s.stop == n:
+                return GB58(self.row, self.payload, None, self.as_bytes)              # value[:value.index('%')]
+            if self.ep is not None and isinstance(s.start, int) and s.start == n + 1 and s.stop is None:
+                return self.ep                                                        # value[value.index('%') + 1:]
         raise Unsupported(f'subscript {s} of a ghost base58 string')
 
     def __pyvc_binop__(self, eng, op, other, refl):
@@ -178,13 +197,28 @@ def install(eng):
     import base58
     from pytezos.crypto import encoding as E
 
+    def _one(args, kwargs, name):
+        """the single argument of a contract, passed positionally or by its keyword"""
+        if len(args) == 1 and not kwargs:
+            return args[0]
+        if not args and set(kwargs) == {name}:
+            return kwargs[name]
+        raise Unsupported(f'call shape of a base58 contract: {len(args)} positional, keywords {sorted(kwargs)}')
+
     def b58decode_check(e, args, kwargs):
-        (s,) = args
+        s = _one(args, kwargs, 'v')
         if not isinstance(s, GB58) or s.ep is not None:
             raise Unsupported('b58decode_check of a non-ghost string')
         return e.bytes_concat(SBytes.from_bytes(s.row[2]), s.payload)
 
     def base58_encode(e, args, kwargs):
+        args = list(args)
+        if len(args) < 1 and 'v' in kwargs:
+            args.append(kwargs['v'])
+        if len(args) < 2 and 'prefix' in kwargs:
+            args.append(kwargs['prefix'])
+        if len(args) != 2 or set(kwargs) - {'v', 'prefix'}:
+            raise Unsupported('call shape of base58_encode')
         v, prefix = args
         v = e.as_sbytes(v)
         if not v.concrete_len():
@@ -197,7 +231,7 @@ def install(eng):
         return GB58(r, v, None, True)
 
     def base58_decode(e, args, kwargs):
-        (s,) = args
+        s = _one(args, kwargs, 'v')
         if not isinstance(s, GB58) or s.ep is not None:
             raise Unsupported('base58_decode of a non-ghost string')
         return SBytes(s.payload.arr, s.payload.n, s.payload.off, False)
